@@ -24,6 +24,16 @@ fn parse_payload(p: &str) -> Option<(Vec<char>, Vec<usize>)> {
     Some((text, chunks))
 }
 
+/// lexer definitions over the alphabet of the generated texts: lexing succeeds / stops because no
+/// rule matches 'b' / a rule without a token id matches / a pop from the empty state stack / a
+/// multi-byte rule
+const LEXERS: &[&str] = &[
+    "%%\n[ab]+ 'A'\n\u{e9}+ 'E'\n[\\n\\r]+ 'NL'\n",
+    "%%\na+ 'A'\n\u{e9}+ 'E'\n[\\n\\r]+ 'NL'\n",
+    "%%\na+ 'A'\nb 'NOID'\n\u{e9}+ 'E'\n[\\n\\r]+ 'NL'\n",
+    "%x S\n%%\na+ 'A'\nb <-S>'POP'\n\u{e9}+ 'E'\n[\\n\\r]+ 'NL'\n",
+];
+
 /// The implementation's answer in the driver's reply format, plus harness-side verdicts on the glue.
 fn answer(text: &[char], chunks: &[usize]) -> (String, Vec<String>) {
     let s: String = text.iter().collect();
@@ -82,6 +92,80 @@ fn answer(text: &[char], chunks: &[usize]) -> (String, Vec<String>) {
                         }
                     }
                 }
+            }
+        }
+    }
+    // answers must not depend on the ORDER of the queries made on one cache: ask again backwards and
+    // in a scrambled order and compare with the first (ascending) pass
+    {
+        let first_ln: Vec<Option<usize>> = (0..len + 2).map(|b| nlc.byte_to_line_num(b)).collect();
+        let first_lb: Vec<Option<usize>> = (0..len + 2).map(|b| nlc.byte_to_line_byte(b)).collect();
+        let mut order: Vec<usize> = (0..len + 2).rev().collect();
+        let mut k = 7usize;
+        for _ in 0..len + 2 {
+            k = (k * 31 + 11) % (len + 2);
+            order.push(k);
+        }
+        for b in order {
+            let x = guarded(std::panic::AssertUnwindSafe(|| (nlc.byte_to_line_num(b), nlc.byte_to_line_byte(b))));
+            if x.as_ref().ok() != Some(&(first_ln[b], first_lb[b])) {
+                fails.push(format!("query order matters: offset {} answered {:?} when asked after other offsets, {:?} in ascending order", b, x, (first_ln[b], first_lb[b])));
+                break;
+            }
+        }
+        for &b in bounds.iter().rev() {
+            let x = guarded(std::panic::AssertUnwindSafe(|| nlc.byte_to_line_num_and_col_num(&s, b)));
+            let want = lc.get(bounds.iter().position(|y| *y == b).unwrap_or(0)).cloned().unwrap_or_default();
+            let got = match &x { Ok(Some((l, c))) => format!("{},{}", l, c), Ok(None) => "N".to_string(), Err(_) => "P".to_string() };
+            if got != want {
+                fails.push(format!("query order matters: line/col at offset {} is {} when asked in descending order, {} in ascending order", b, got, want));
+                break;
+            }
+        }
+    }
+    // the cache a lexer built by `LRNonStreamingLexerDef::lexer` carries — also when lexing stops early
+    // (no rule matches, a rule without token id, a pop from an empty state stack, an unknown state)
+    {
+        use lrlex::{LRNonStreamingLexerDef, LexerDef};
+        use lrpar::NonStreamingLexer;
+        for (li, lsrc) in LEXERS.iter().enumerate() {
+            let def = match LRNonStreamingLexerDef::<DefaultLexerTypes<u32>>::from_str(lsrc) {
+                Ok(mut d) => {
+                    // ids for every rule but the one called NOID
+                    let map: std::collections::HashMap<&str, u32> = [("A", 0u32), ("B", 1), ("NL", 2), ("E", 3), ("POP", 4)].into_iter().collect();
+                    let _ = d.set_rule_ids(&map);
+                    d
+                }
+                Err(_) => continue,
+            };
+            let r = guarded(std::panic::AssertUnwindSafe(|| {
+                let lx = def.lexer(&s);
+                let mut bad = None;
+                for (i, &b1) in bounds.iter().enumerate() {
+                    // every boundary as an empty span, and a few wider ones
+                    for &b2 in [b1, *bounds.get(i + 1).unwrap_or(&b1), len].iter() {
+                        if b2 < b1 {
+                            continue;
+                        }
+                        let got = lx.line_col(Span::new(b1, b2));
+                        let want = (nlc.byte_to_line_num_and_col_num(&s, b1), nlc.byte_to_line_num_and_col_num(&s, b2));
+                        if (Some(got.0), Some(got.1)) != want {
+                            bad = Some(format!("lexer {} built by lexerdef.lexer(): line_col({},{}) = {:?}, the cache of the whole text gives {:?}", li, b1, b2, got, want));
+                        }
+                        let t = lx.span_lines_str(Span::new(b1, b2));
+                        let st = t.as_ptr() as usize - s.as_ptr() as usize;
+                        let w = nlc.span_line_bytes(Span::new(b1, b2));
+                        if (st, st + t.len()) != w {
+                            bad = Some(format!("lexer {} built by lexerdef.lexer(): span_lines_str({},{}) = {:?}, span_line_bytes of the whole text = {:?}", li, b1, b2, (st, st + t.len()), w));
+                        }
+                    }
+                }
+                bad
+            }));
+            match r {
+                Ok(None) => {}
+                Ok(Some(e)) => fails.push(e),
+                Err(e) => fails.push(format!("lexer {} built by lexerdef.lexer(): line_col/span_lines_str panicked: {}", li, e)),
             }
         }
     }
